@@ -5,13 +5,13 @@ SPECIFICATION CSpec
 CONSTANTS
   Keys = {1, 2}
   Times = {1, 2}
-  BatchSizes = {1}
+  BatchSizes = {1, 2}
   DupInBatch = FALSE
-  MaxPoints = 3
+  MaxPoints = 2
   MaxSnaps = 1
   MaxCompacts = 1
   MaxDeletes = 1
-  MaxReopens = 0
+  MaxReopens = 1
   MinGroup = 1
   SplitWrites = FALSE
   SnapDeleteOverlap = FALSE
